@@ -39,7 +39,7 @@ class UTMIHostIdleData(UTMIHost):
         self.idle_data_in_packet = 0           # ... of which rx_active was high (gaps inside / after the bytes of a packet)
         self.idle_data_at_end = 0              # ... of which were the cycle rx_active fell
         self._was_active = 0
-        super().__init__(script, **kw)
+        super().__init__(script, **kw)          # (the base class's own idle_data stays None: this subclass does the replacement)
 
     def drive(self, t):
         d = super().drive(t)
